@@ -1264,6 +1264,10 @@ where
 
     // FIXME: Maybe we should revert counter if new blob creation failed?
     // It'll make code a bit more complicated, but blobs will sequentially grow for sure
+    pub(crate) fn next_blob_id_value(&self) -> usize {
+        self.next_blob_id.load(Ordering::Acquire)
+    }
+
     pub(crate) fn next_blob_name(&self) -> Result<blob::FileName> {
         let next_id = self.next_blob_id.fetch_add(1, Ordering::AcqRel);
         let name_prefix = self
@@ -1430,6 +1434,10 @@ where
             None => None,
             Some(blob) => Some(blob.read().await)
         }
+    }
+
+    pub(crate) async fn push_closed_blob(&mut self, blob: Blob<K>) {
+        self.blobs.write().await.push(blob).await;
     }
 
     pub(crate) async fn replace_active_blob(&mut self, blob: Blob<K>) -> Result<()> {
